@@ -450,7 +450,47 @@ fn step_queries<const N: u32, const C: u32>() {
     core::mem::forget(a);
 }
 
+
+fn range_mask(lo: u32, hi: u32) -> u128 {
+    let upto = |k: u32| -> u128 { if k >= 128 { u128::MAX } else { (1u128 << k) - 1 } };
+    upto(hi) & !upto(lo)
+}
+
+/// resize(M) of a region of length N < M: every old page keeps its state and exactly the new
+/// pages become free; R holds at the new length
+fn step_grow<const N: u32, const M: u32, const C: u32>() {
+    let (mut a, pre, _pre_words) = any_pre::<N, C>();
+    a.resize(M);
+    let post = r_inv(&a, M, C);
+    assert!(post.is_some(), "R holds at the new length (blocks aligned, maximally merged, tails set)");
+    assert!(post.unwrap() == pre | range_mask(N, M), "old pages keep their state, new pages are free");
+    assert!(a.len() == M);
+    kani::cover!(pre == 0, "grown from a full region");
+    kani::cover!(pre & (1u128 << (N - 1)) != 0, "last old page free: may merge with the new space");
+    core::mem::forget(a);
+}
+
+/// resize(M) of a region of length N > M (precondition of try_shrink / resize_to, asserted by
+/// resize itself: the cut pages are all free): the remaining pages keep their state; R holds
+fn step_shrink<const N: u32, const M: u32, const C: u32>() {
+    let (mut a, pre, _pre_words) = any_pre::<N, C>();
+    kani::assume(pre & range_mask(M, N) == range_mask(M, N));
+    a.resize(M);
+    let post = r_inv(&a, M, C);
+    assert!(post.is_some(), "R holds at the new length");
+    assert!(post.unwrap() == pre & range_mask(0, M), "remaining pages keep their state");
+    assert!(a.len() == M);
+    kani::cover!(pre & range_mask(0, M) != 0 && pre & range_mask(0, M) != range_mask(0, M), "mixed state survives the cut");
+    core::mem::forget(a);
+}
+
 macro_rules! buddy_harness {
+    ($name:ident, grow, $n:literal, $m:literal, $c:literal, $u:literal) => {
+        #[kani::proof] #[kani::unwind($u)] fn $name() { step_grow::<$n, $m, $c>(); }
+    };
+    ($name:ident, shrink, $n:literal, $m:literal, $c:literal, $u:literal) => {
+        #[kani::proof] #[kani::unwind($u)] fn $name() { step_shrink::<$n, $m, $c>(); }
+    };
     ($name:ident, alloc, $n:literal, $c:literal, $u:literal) => {
         #[kani::proof] #[kani::unwind($u)] fn $name() { step_alloc::<$n, $c>(false); }
     };
